@@ -59,6 +59,12 @@ CHECKS.update({
             "'Whenever such a root exists' is judged with re-evaluation for up to 30 s while the chain keeps producing empty blocks; FEP mode has no removals.", "DESIGN.md §4 C16"),
 })
 
+CHECKS.update({
+    "C11": ("exploration", "runtime monitor: real L1 contracts (GlobalExitRootV2, bridge, rollup-manager stand-in) in an in-process EVM as oracle for the store built by the real syncer; reference model validated against the EVM; simulator and processor levels for volume",
+            "Level A: random interleavings of deposits with GER update and batch verifications (several per block, zero / unchanged exit roots) executed by the real contract bytecode and synced by the real l1infotreesync (downloader + driver + processor): l1InfoRootMap(n), getLeafValue, getRollupExitRoot and the per-rollup exit roots read from the contracts must equal what the node serves by index and by GER. Level A2 runs the real syncer over the chain simulator with ABI-encoded logs (several events per transaction, rollup ids up to 2^32-1), Level B feeds the real processor directly; both are judged by the reference model that Level A validates against the EVM in the same run.",
+            "Exit roots never return to an earlier value (domain); in Level A no zero exit root after a non-zero one for the same rollup; the rollup manager stand-in's getRollupExitRoot is a verbatim copy of the real one.", "DESIGN.md §4 C11"),
+})
+
 # properties not (yet) claimed: reason
 NOT_APPLICABLE = {
 }
